@@ -285,7 +285,13 @@ impl rabuf::SmallWrite for VarFile {
     }
     #[inline]
     fn write_all_small(&mut self, buf: &[u8]) -> Result<()> {
-        self.buf_file.write_all_small(buf)
+        // `BufFile::write_all_small()` is only for data that is shorter than a chunk,
+        // and the smallest chunk in use is 4 KiB.
+        if buf.len() <= 4096 {
+            self.buf_file.write_all_small(buf)
+        } else {
+            self.buf_file.write_all(buf)
+        }
     }
     #[inline]
     fn write_zero(&mut self, size: u32) -> Result<()> {
